@@ -271,6 +271,11 @@ def simp1(t):
             return None  # syntactically equal symbolic terms: leave (could be NaN-like); rules decide
         if op in CMPF and is_num(a) and is_num(b):
             return C(CMPF[op](a[1], b[1]))
+        if op in CMPF and is_num(b) and a[0] == 'ite' and (is_num(a[2]) or is_num(a[3])):
+            # (c ? m : n) <op> k  with a number on one branch at least: decided per branch
+            x = C(CMPF[op](a[2][1], b[1])) if is_num(a[2]) else ('cmp', op, a[2], b)
+            y = C(CMPF[op](a[3][1], b[1])) if is_num(a[3]) else ('cmp', op, a[3], b)
+            return simp(('ite', a[1], x, y))
         if op in ('In', 'NotIn') and b[0] == 'dict' and ka is not None and all(known_value(kk) is not None for kk, _ in b[1]):
             r = ka in [known_value(kk) for kk, _ in b[1]]
             return C(r if op == 'In' else not r)
@@ -293,6 +298,10 @@ def simp1(t):
         if t[1] == TRUE: return t[2]
         if t[1] == FALSE: return t[3]
         if t[2] == t[3]: return t[2]
+        if t[3][0] == 'ite' and (t[3][1] == ('not', t[1]) or t[1] == ('not', t[3][1])):
+            return simp(('ite', t[1], t[2], t[3][2]))          # c ? a : (not c ? b : d)  - d cannot be reached
+        if t[2][0] == 'ite' and t[2][1] == t[1]:
+            return simp(('ite', t[1], t[2][2], t[3]))          # c ? (c ? a : d) : b
         if t[2] == TRUE and t[3] == FALSE: return t[1]
         if t[2] == FALSE and t[3] == TRUE: return NOT(t[1])
         return None
